@@ -215,5 +215,71 @@ pub fn run(ctx: &mut Ctx) {
             ctx.count(&format!("oracle3_fragment_style:{}", style));
         }
     }
+    // ---- oracle 4: a failed write does not bend the stream.  Headers are sent through the Write-based calls;
+    //      now and then the writer refuses (an error at the first byte, nothing reaches the wire).  The bytes the
+    //      encrypter hands out before and after such a failure must still be the recurrence over EVERYTHING it was
+    //      asked to encrypt, the refused header included (the documented behaviour: the cipher has advanced), and
+    //      every failure must be reported
+    {
+        struct Refuse;
+        impl std::io::Write for Refuse {
+            fn write(&mut self, _b: &[u8]) -> std::io::Result<usize> { Err(std::io::Error::new(std::io::ErrorKind::BrokenPipe, "refused")) }
+            fn flush(&mut self) -> std::io::Result<()> { Ok(()) }
+        }
+        let mut rng = ctx.rng("oracle4");
+        let n = if ctx.quick() { 300 } else { 3000 };
+        for k in 0..n {
+            let key: [u8; 40] = rng.arr();
+            let items = 2 + rng.range(0, 10) as usize;
+            let mut script: Vec<(u8, u32, u32, bool)> = Vec::new();          // kind 0 server header / 1 client header, size, opcode, refused?
+            let mut plain: Vec<u8> = Vec::new();
+            let mut keep: Vec<(usize, usize)> = Vec::new();
+            for i in 0..items {
+                let refused = i > 0 && rng.chance(1, 4) || (k % 7 == 0 && i == 0);
+                let start = plain.len();
+                if rng.chance(1, 2) { let (s, o) = (rng.range(0, 0xFFFF) as u32, rng.range(0, 0xFFFF) as u32); plain.extend_from_slice(&[(s >> 8) as u8, s as u8, o as u8, (o >> 8) as u8]); script.push((0, s, o, refused)); }
+                else { let (s, o) = (rng.range(0, 0xFFFF) as u32, rng.next() as u32); plain.extend_from_slice(&[(s >> 8) as u8, s as u8]); plain.extend_from_slice(&o.to_le_bytes()); script.push((1, s, o, refused)); }
+                if !refused { keep.push((start, plain.len())); }
+            }
+            let facade = k % 2 == 0;
+            let sc = script.clone();
+            let r = catch(move || {
+                let mut wire: Vec<u8> = Vec::new();
+                let mut unreported = 0usize;
+                let mut c = new_crypto(key);
+                let (mut e, _) = halves(key);
+                for (kind, s, o, refused) in sc.iter() {
+                    let res = match (kind, refused, facade) {
+                        (0, false, false) => e.write_encrypted_server_header(&mut wire, *s as u16, *o as u16),
+                        (0, true, false) => e.write_encrypted_server_header(&mut Refuse, *s as u16, *o as u16),
+                        (0, false, true) => c.write_encrypted_server_header(&mut wire, *s as u16, *o as u16),
+                        (0, true, true) => c.write_encrypted_server_header(&mut Refuse, *s as u16, *o as u16),
+                        (_, false, false) => e.write_encrypted_client_header(&mut wire, *s as u16, *o),
+                        (_, true, false) => e.write_encrypted_client_header(&mut Refuse, *s as u16, *o),
+                        (_, false, true) => c.write_encrypted_client_header(&mut wire, *s as u16, *o),
+                        (_, true, true) => c.write_encrypted_client_header(&mut Refuse, *s as u16, *o),
+                    };
+                    if res.is_ok() == *refused { unreported += 1; }
+                }
+                (wire, unreported)
+            });
+            ctx.oracle_runs += 1;
+            let sj: Vec<String> = script.iter().map(|(kd, s, o, rf)| format!("{{\"{}\":[{},{}],\"writer_refuses\":{}}}", if *kd == 0 { "server_header" } else { "client_header" }, s, o, rf)).collect();
+            let det = |what: &str| format!("{{\"what\":\"{}\",\"key\":\"{}\",\"combined_object\":{},\"script\":[{}]}}", what, hex(&key), facade, sj.join(","));
+            match r {
+                None => ctx.fail("panic", det("panic while writing headers to a writer that sometimes refuses")),
+                Some((wire, unreported)) => {
+                    let full = spec_enc(&hmac_sha1(&TBC_SEED, &key), &plain);
+                    let want: Vec<u8> = keep.iter().flat_map(|(a, b)| full[*a..*b].to_vec()).collect();
+                    if unreported != 0 { ctx.fail("write_error_swallowed", det("a write result does not say whether the writer accepted the header")); }
+                    else if wire != want {
+                        let at = wire.iter().zip(want.iter()).position(|(a, b)| a != b).unwrap_or(wire.len().min(want.len()));
+                        ctx.fail("stream_after_failed_write", det(&format!("after a refused write the bytes handed out are not the recurrence over everything the encrypter was asked to send, first at wire offset {}", at)));
+                    }
+                }
+            }
+            ctx.count("oracle4_failed_write_histories");
+        }
+    }
     ctx.exhaustive.push(format!("step table: all 20 x 256 x 256 (position, previous, input) combinations, both directions, for {} key(s)", nkeys));
 }
